@@ -44,7 +44,14 @@ NextCT == \E tag \in Tags :
             \/ \E kind \in LeafActKinds :
                  /\ c' = <<"act", kind, tag>>
                  /\ Emit("CT", FlowModEl("m", 0, <<>>, <<InstrActs("i", "apply", << <<LeafAct("a1", kind, tag), FALSE>>, <<LeafAct("a2", "output", tag), FALSE>> >>)>>, tag).tree)
+\* switch-originated kinds built through the Go API: the encoders of these kinds under the construction judge (C03, C05, C06, C13)
+NextEB == \E kind \in BuiltKinds, tag \in Tags :
+            LET el == Built(kind, tag) IN
+            /\ c' = <<kind, tag>>
+            /\ PrintT(ToJson([k |-> "build", fam |-> "EB", top |-> el.n, ops |-> el.ops,
+                              observe |-> << <<"len", el.n>>, <<"marshal", el.n>>, <<"len", el.n>>, <<"marshal", el.n>>, <<"marshal", el.n>> >>,
+                              kids |-> <<>>, trees |-> [x \in {el.n} |-> el.tree]]))
 Init == c = <<>>
-Next == c = <<>> /\ CASE Family = "SW" -> NextSW [] Family = "PI" -> NextPI [] Family = "MP" -> NextMP [] Family = "CT" -> NextCT
+Next == c = <<>> /\ CASE Family = "EB" -> NextEB [] Family = "SW" -> NextSW [] Family = "PI" -> NextPI [] Family = "MP" -> NextMP [] Family = "CT" -> NextCT
 Spec == Init /\ [][Next]_c
 =============================================================================
